@@ -400,7 +400,7 @@ func visitInstr(fr *frame, instr ssa.Instruction) continuation {
 			if m == nil {
 				tpanic("assignment to entry in nil map")
 			}
-			m[key] = v
+			mapSet(m, key, v)
 		case *hashmap:
 			if m == nil {
 				tpanic("assignment to entry in nil map")
